@@ -613,3 +613,48 @@ func (c *Ctx) RetX(ret *ssa.Return, i int) *X {
 	}
 	return c.E(r)
 }
+
+// ReachingStore resolves a multiply-assigned local cell at a use site: if
+// exactly one store in the using function precedes the use on every path and
+// every other store sits in a closure created only after the use, the stored
+// value is returned; otherwise nil.
+func (c *Ctx) ReachingStore(x *X, at ssa.Instruction) *X {
+	if x == nil || x.Op != "var" {
+		return nil
+	}
+	al, ok := x.V.(*ssa.Alloc)
+	if !ok {
+		return nil
+	}
+	stores, esc := c.xb.storesTo(al, map[ssa.Value]bool{})
+	if esc {
+		return nil
+	}
+	var pick *ssa.Store
+	for _, st := range stores {
+		if st.Parent() == at.Parent() {
+			if Precedes(st, at) {
+				if pick != nil {
+					return nil
+				}
+				pick = st
+			} else if MayFollow(st, at) {
+				return nil
+			}
+			continue
+		}
+		// store inside a closure: its MakeClosure must not precede the use
+		f := st.Parent()
+		for f.Parent() != nil && f.Parent() != at.Parent() {
+			f = f.Parent()
+		}
+		mc := c.xb.makeClosureOf(f)
+		if mc == nil || mc.Parent() != at.Parent() || MayFollow(mc, at) {
+			return nil
+		}
+	}
+	if pick == nil {
+		return nil
+	}
+	return c.E(pick.Val)
+}
